@@ -1,0 +1,43 @@
+// Licensed to Elasticsearch B.V. under one or more contributor
+// license agreements. See the NOTICE file distributed with
+// this work for additional information regarding copyright
+// ownership. Elasticsearch B.V. licenses this file to you under
+// the Apache License, Version 2.0 (the "License"); you may
+// not use this file except in compliance with the License.
+// You may obtain a copy of the License at
+//
+//     http://www.apache.org/licenses/LICENSE-2.0
+//
+// Unless required by applicable law or agreed to in writing,
+// software distributed under the License is distributed on an
+// "AS IS" BASIS, WITHOUT WARRANTIES OR CONDITIONS OF ANY
+// KIND, either express or implied.  See the License for the
+// specific language governing permissions and limitations
+// under the License.
+
+//go:build verif && linux
+// +build verif,linux
+
+package seccomp
+
+import "unsafe"
+
+// VerifSchedPoint, if set, is called by LoadFilter between the prctl and the
+// seccomp system calls.
+var VerifSchedPoint func()
+
+// VerifCapture, if set, is called by the seccomp syscall wrapper immediately
+// before the system call with the arguments about to be passed to the kernel.
+var VerifCapture func(op uintptr, flags FilterFlag, uargs unsafe.Pointer)
+
+func verifSchedPoint() {
+	if VerifSchedPoint != nil {
+		VerifSchedPoint()
+	}
+}
+
+func verifCapture(op uintptr, flags FilterFlag, uargs unsafe.Pointer) {
+	if VerifCapture != nil {
+		VerifCapture(op, flags, uargs)
+	}
+}
